@@ -7,6 +7,7 @@ from vlib import zlit, zlist, blit, listlit, optlit
 PROP = 'C05'
 UNEQUAL = 'epochs of different lengths complete at the same send'
 KNOWN_KEY = 'unequal-durations-complete-in-one-send'
+ZERO_KEY = 'epoch-size-zero-treated-as-none'
 REQUIRES = ['Extract.Model', 'Extract.Spec']
 RULE = ('drives the real extract_epochs coroutine send by send. (1) one request: every start lo in [-1, total] x length n in '
         '{0,1,2,4,5,9} x arrival call x look-back B in {0,3,4,9} over fixed chunkings (equal, ragged with empty and 1-sample chunks); '
@@ -45,9 +46,30 @@ def _val(case, i):
     return (i + 1) if case.get('vals', 'idx') == 'idx' else ((i * 7 + 3) % 10)
 
 
+def _fs(case):
+    """the sampling rate object handed to the code: float, int or NumPy scalar"""
+    t = case.get('fstype', 'float')
+    return int(case['fs']) if t == 'int' else (np.float64(case['fs']) if t == 'np' else case['fs'])
+
+
+def _key(k):
+    """JSON has no tuples: a list stands for a tuple-valued key"""
+    return tuple(_key(x) for x in k) if isinstance(k, list) else k
+
+
+def _t0(case, q):
+    """request time exactly as put into the info dict: float (default), int or NumPy scalar"""
+    t0 = q[0] / _fs(case)
+    kind = (q[3] if len(q) > 3 else {}).get('t0type', 'float')
+    if kind == 'int':
+        assert t0 == int(t0)
+        return int(t0)
+    return np.float64(t0) if kind == 'np' else t0
+
+
 def _times(case):
     """prestim/poststim in seconds, exactly as they are handed to extract_epochs"""
-    fs = case['fs']
+    fs = _fs(case)
 
     def tv(spec):
         kind, k = spec[0], spec[1]
@@ -61,76 +83,199 @@ def _times(case):
     return tv(case['pre']), tv(case['post'])
 
 
-def _effective(case):
-    """Everything the integer model needs, computed with the code's own float expressions."""
-    fs = case['fs']
+def _epoch_size(case):
+    """the epoch_size argument: None, float, int or NumPy scalar"""
+    if case['size'] is None:
+        return None
+    t = case.get('sizetype', 'float')
+    if t == 'int':
+        assert case['size'] == 0
+        return 0
+    v = case['size'] / _fs(case)
+    return np.float64(v) if t == 'np' else v
+
+
+_ZERO_FALSY = []
+
+
+def _zero_size_uses_duration():
+    """pipeline.py 815 reads `epoch_size if epoch_size else info['duration']`: does the tree under test treat
+    epoch_size=0.0 like None?  (asked of the code itself, so that the model input stays what the code computes)"""
+    if not _ZERO_FALSY:
+        from collections import deque
+        from psiaudio.pipeline import extract_epochs
+        out = []
+        ex = extract_epochs(fs=1000.0, queue=deque([{'t0': 0.0, 'duration': 0.002}]), epoch_size=0.0, target=out.append)
+        ex.send(np.arange(5.0))
+        _ZERO_FALSY.append(bool(out) and out[0].shape[-1] == 2)
+    return _ZERO_FALSY[0]
+
+
+def _has_dur(case, q):
+    return q[2] is not None and (case['size'] is None or case.get('withdur', False))
+
+
+def _effective(case, mode='code'):
+    """Everything the integer model needs, computed with the code's own float expressions (mode 'code'), or what
+    the property text asks for (mode 'prop'; differs only for epoch_size=0, see ZERO_KEY)."""
+    fs = _fs(case)
     pre, post = _times(case)
-    B = round((case['B'] / fs) * fs)
+    B = 0 if case.get('bdef') else round((case['B'] / fs) * fs)
     keyids = {}
 
     def kid(t0, key):
-        return keyids.setdefault((t0, key), len(keyids))
+        return keyids.setdefault((t0, _key(key)), len(keyids))
     feeds = []
     rid = 0
+    use_dur = case['size'] is None or (mode == 'code' and case['size'] == 0 and _zero_size_uses_duration())
     for f in case['feeds']:
         reqs = []
         for q in f['reqs']:
-            t0 = q[0] / fs
-            size = (case['size'] / fs) if case['size'] is not None else q[2] / fs
-            n = round((size + post + pre) * fs)
+            t0 = _t0(case, q)
+            if use_dur:
+                size = (q[2] / fs) if _has_dur(case, q) else None      # None: the code raises KeyError('duration')
+            else:
+                size = _epoch_size(case)
+            n = 0 if size is None else round((size + post + pre) * fs)
             lo = round((t0 - pre) * fs)
-            reqs.append({'key': kid(t0, q[1]), 'lo': lo, 'n': n, 'rid': rid})
+            nomd = (q[3] if len(q) > 3 else {}).get('nomd', False)
+            reqs.append({'key': kid(t0, q[1]), 'lo': int(lo), 'n': int(n), 'rid': -1 if nomd else rid})
             rid += 1
         # removals are looked up after the requests of the same call so that ids follow first appearance
         rems = [kid(r[0] / fs, r[1]) for r in f['rems']]
         feeds.append({'n': f['n'], 'reqs': reqs, 'rems': rems, 'cpl': bool(f['cpl']) if case['sc'] else True})
-    return B, feeds
+    return int(B), feeds, keyids
+
+
+def _labels(case, nch):
+    t = case.get('chlabels', 'str')
+    if t == 'none':
+        return None
+    if t == 'mixed':
+        return [0, '', ('a', 1)][:nch]      # falsy, empty and tuple-valued labels
+    return ['a', 'b', 'c'][:nch]
+
+
+def _impl_capture(case):
+    """capture_epoch used stand-alone"""
+    import logging
+    from psiaudio.pipeline import capture_epoch, PipelineData
+    logging.getLogger('psiaudio.pipeline').setLevel(logging.ERROR)
+    annot = case['kind'][0] == 'P'
+    dt = np.dtype(case.get('dtype', 'float64'))
+    out = []
+    info = {} if case.get('nomd') else {'metadata': {'rid': 7}, 'x': 1}
+    s0 = float(case['lo']) if case.get('s0float') else case['lo']
+    ns = np.int64(case['n']) if case.get('nnp') else case['n']
+    kw = {} if case.get('fsnone') else {'fs': 1000.0}
+    cap = capture_epoch(s0, ns, info, out.append, **kw)
+    obs, sends, notes = [], [], []
+    for slb, m in case['sends']:
+        base = np.array([_val(case, i) for i in range(slb, slb + m)], dtype=dt)
+        sends.append([slb, [int(v) for v in base]])
+        data = PipelineData(base, fs=1000.0, s0=slb, metadata=dict(CHUNK_MD)) if annot else base
+        n_out = len(out)
+        stopped = False
+        try:
+            cap.send((slb, data))
+        except StopIteration:
+            stopped = True
+        new = out[n_out:]
+        if len(new) > 1 or (bool(new) != stopped):
+            notes.append('target calls and StopIteration do not go together')
+        if not new:
+            obs.append(['none'])
+            continue
+        arr = new[0]
+        if isinstance(arr, PipelineData) and arr.shape == (0,) and 'src' not in arr.metadata:
+            obs.append(['miss'])
+            if arr.metadata != info.get('metadata', {}) or arr.s0 != case['lo']:
+                notes.append(f'missed epoch carries metadata {arr.metadata}, s0 {arr.s0}')
+        else:
+            obs.append(['data', [int(v) for v in np.asarray(arr)]])
+            if arr.dtype != dt:
+                notes.append(f'dtype {arr.dtype} delivered for {dt} input')
+            if annot:
+                want = dict(CHUNK_MD, **info.get('metadata', {}), **{k: v for k, v in info.items() if k != 'metadata'})
+                if not isinstance(arr, PipelineData) or arr.metadata != want or arr.s0 != case['lo']:
+                    notes.append(f'annotated epoch carries {getattr(arr, "metadata", None)}, s0 {getattr(arr, "s0", None)}')
+        break
+    if info != ({} if case.get('nomd') else {'metadata': {'rid': 7}, 'x': 1}):
+        notes.append('capture_epoch modified the info dict of its caller')
+    return {'sends': sends, 'obs': obs, 'notes': notes}
 
 
 def impl(case):
+    if case.get('t') == 'cap':
+        return _impl_capture(case)
     import logging
     from collections import deque
     from threading import Event
     from psiaudio.pipeline import extract_epochs, PipelineData
     logging.getLogger('psiaudio.pipeline').setLevel(logging.ERROR)
 
-    fs = case['fs']
+    fs = _fs(case)
     pre, post = _times(case)
-    B, eff = _effective(case)
+    B, eff, _ = _effective(case)
     annot, multi = case['kind'][0] == 'P', case['kind'][1] == '2'
-    q, rq, out, fired = deque(), deque(), [], []
+    nch = case.get('nch', 2) if multi else 1
+    dt = np.dtype(case.get('dtype', 'float64'))
+    s0off = case.get('s0off', 0)
+    chunk_md = dict(CHUNK_MD) if case.get('chunk_md', True) else {}
+    labels = _labels(case, nch) if multi else None
+    q, out, fired = deque(), [], []
     ev = Event() if case['sc'] else None
-    ex = extract_epochs(fs=fs, queue=q, epoch_size=(None if case['size'] is None else case['size'] / fs),
-                        target=out.append, buffer_size=case['B'] / fs, empty_queue_cb=lambda: fired.append(1),
-                        removed_queue=rq, prestim_time=pre, poststim_time=post, source_complete=ev)
+    kw = {}
+    if not case.get('bdef'):
+        kw['buffer_size'] = case['B'] / fs
+    if case.get('cb', True):
+        kw['empty_queue_cb'] = lambda: fired.append(1)
+    rq = None
+    if case.get('rq', True):
+        rq = kw['removed_queue'] = deque()
+    if pre != 0 or not case.get('predef'):
+        kw['prestim_time'] = pre
+    if post != 0 or not case.get('predef'):
+        kw['poststim_time'] = post
+    if ev is not None or not case.get('predef'):
+        kw['source_complete'] = ev
+    ex = extract_epochs(fs=fs, queue=q, epoch_size=_epoch_size(case), target=out.append, **kw)
     pos, rid, obs, raw, notes = 0, 0, [], [], []
     caller_set = False
+    handed, chunks_given = [], []
     if ev is not None and ev.is_set():
         notes.append('source_complete Event passed unset is set after creating the extractor')
     for f, e in zip(case['feeds'], eff):
         for rq_ in f['reqs']:
-            info = {'t0': rq_[0] / fs, 'metadata': {'rid': rid}}
+            opts = rq_[3] if len(rq_) > 3 else {}
+            info = {'t0': _t0(case, rq_)}
+            if not opts.get('nomd'):
+                info['metadata'] = {'rid': rid}
             if rq_[1] is not None:
-                info['key'] = rq_[1]
-            if case['size'] is None:
+                info['key'] = _key(rq_[1])
+            if _has_dur(case, rq_):
                 info['duration'] = rq_[2] / fs
             q.append(info)
+            handed.append(info)
             rid += 1
         for r in f['rems']:
             info = {'t0': r[0] / fs}
             if r[1] is not None:
-                info['key'] = r[1]
+                info['key'] = _key(r[1])
             rq.append(info)
         if ev is not None and bool(f['cpl']) != caller_set:
             # the caller touches its Event only when it changes its mind: an Event passed unset stays
             # untouched until the caller sets it
             (ev.set if f['cpl'] else ev.clear)()
             caller_set = bool(f['cpl'])
-        base = np.array([_val(case, i) for i in range(pos, pos + f['n'])], dtype=float)
+        base = np.array([_val(case, i) for i in range(pos, pos + f['n'])], dtype=dt)
         e['chunk'] = [int(v) for v in base]
-        data = np.stack([base, base + OFFS]) if multi else base
+        data = np.stack([base + dt.type(OFFS * c) for c in range(nch)]) if multi else base
         if annot:
-            data = PipelineData(data, fs=fs, s0=pos, channel=(['a', 'b'] if multi else None), metadata=dict(CHUNK_MD))
+            data = PipelineData(data, fs=fs, s0=pos + s0off, channel=labels, metadata=dict(chunk_md))
+        if case.get('ro'):
+            data.setflags(write=False)
+        chunks_given.append((data, np.array(data, copy=True)))
         n_out, n_fired = len(out), len(fired)
         try:
             ex.send(data)
@@ -140,11 +285,19 @@ def impl(case):
                 obs.append(['E', 'dup'])
             elif isinstance(err, IndexError) and 'list index out of range' in msg:
                 raise          # prior_samples emptied: not a behaviour of the model
+            elif 'read-only' in msg:
+                raise          # the extractor wrote into an array of its caller
             else:
                 obs.append(['E', 'stack'])
             raw.append(None)
             break
         pos += f['n']
+        # aliasing: whatever the caller does to the request dicts it has handed over must not reach the epochs
+        for info in handed:
+            info['t0'] = -1.0
+            info['key'] = 'overwritten-by-caller'
+            info['duration'] = 99.0
+        handed = []
         if ev is not None and ev.is_set() != caller_set:
             notes.append(f'source_complete.is_set() is {ev.is_set()} after a send although the caller left it '
                          f'{"set" if caller_set else "unset"}')
@@ -161,19 +314,36 @@ def impl(case):
             for j in range(a.shape[0]):
                 row0 = a[j] if a.ndim == 2 else a[j, 0]
                 rows.append([int(v) for v in row0])
-                if a.ndim == 3 and a.shape[1] == 2 and not np.array_equal(a[j, 1], a[j, 0] + OFFS):
-                    notes.append('channel 1 of a delivered epoch is not channel 0 of the same samples')
+                if a.ndim == 3 and a.shape[1] == nch:
+                    for c in range(1, nch):
+                        if not np.array_equal(a[j, c], a[j, 0] + dt.type(OFFS * c)):
+                            notes.append(f'channel {c} of a delivered epoch is not channel 0 of the same samples')
                 if not np.array_equal(row0, np.round(row0)):
                     notes.append('non-integer sample delivered')
+            if a.ndim != (3 if (multi or isinstance(arr, PipelineData)) else 2):
+                notes.append(f'delivered block has {a.ndim} dimensions')
             if isinstance(arr, PipelineData):
                 mds = [dict(m) for m in arr.metadata]
-                ann = [int(arr.s0), [[int(m.get('rid', -1)), 't0' not in m] for m in mds]]
-                if multi and a.shape[1] == 2 and list(arr.channel) != ['a', 'b']:
+                allmissed = all('t0' not in m for m in mds)
+                ann = [int(arr.s0) - (0 if (allmissed or not annot) else s0off),
+                       [[int(m.get('rid', -1)), 't0' not in m] for m in mds]]
+                if multi and annot and a.shape[1] == nch and list(arr.channel) != (labels or [None] * nch):
                     notes.append(f'channel labels {arr.channel}')
                 if arr.fs != fs:
                     notes.append('fs of delivered epochs differs')
+                if not allmissed and a.dtype != dt:
+                    notes.append(f'dtype {a.dtype} delivered for {dt} input')
+            elif a.dtype != dt:
+                notes.append(f'dtype {a.dtype} delivered for {dt} input')
+            # aliasing: the caller may do what it likes with a delivered block
+            a[...] = dt.type(77)
         obs.append(['O', rows, ann, bool(cb)])
         raw.append(mds)
+    for given, copy in chunks_given:
+        if not np.array_equal(np.asarray(given), copy):
+            notes.append('a chunk handed to the extractor was modified (by the extractor, or through a delivered block '
+                         'that shares its memory)')
+            break
     return {'B': B, 'eff': eff[:len(obs)], 'obs': obs, 'mds': raw, 'notes': notes,
             'pre': pre, 'post': post}
 
@@ -198,18 +368,23 @@ def _obslit(o):
 def term(case, res):
     if res['notes']:
         return 'false'
+    if case.get('t') == 'cap':
+        sends = listlit([f'({zlit(s)}, {zlist(d)})' for s, d in res['sends']])
+        got = listlit([{'none': 'CNone', 'miss': 'CMiss'}.get(o[0]) or f'CData {zlist(o[1])}' for o in res['obs']])
+        return f"check_capture {zlit(case['lo'])} {zlit(case['n'])} {sends} {got}"
     k = f"(mkkind {blit(case['kind'][0] == 'P')} {blit(case['kind'][1] == '2')})"
     feeds = listlit([_feedlit(e) for e in res['eff']])
     got = listlit([_obslit(o) for o in res['obs']])
     # model == implementation, and (a test of the refinement theorem, not its proof) model == abstract spec
-    return f"(check_run {zlit(res['B'])} {k} {feeds} {got}) && (check_spec {zlit(res['B'])} {k} {feeds})"
+    chk = 'check_run' if case.get('cb', True) else 'check_run_nocb'      # empty_queue_cb=None: never armed
+    return f"({chk} {zlit(res['B'])} {k} {feeds} {got}) && (check_spec {zlit(res['B'])} {k} {feeds})"
 
 
 # --------------------------------------------------------------------------------------------
-def _analyse(case, res):
-    """Schedule facts from the case alone (chunk sizes, requests in samples): preconditions of the property and
-    the fate of every request.  Mirrors the property text, not the code."""
-    B, eff = _effective(case)
+def _analyse(case, res=None):
+    """Schedule facts from the case alone (chunk sizes, requests in samples as the PROPERTY defines them):
+    preconditions of the property and the fate of every request.  Mirrors the property text, not the code."""
+    B, eff, keyids = _effective(case, 'prop')
     ends, kept, T = [], [], 0
     reqs, seen_keys = [], set()
     pre_ok, why = True, None
@@ -253,7 +428,27 @@ def _analyse(case, res):
     return pre_ok, why, reqs, ends
 
 
+def _oracle_capture(case, res):
+    if res['notes']:
+        return '; '.join(res['notes'])
+    lo, n = case['lo'], case['n']
+    sends = case['sends']
+    contiguous = all(sends[i][0] + sends[i][1] == sends[i + 1][0] for i in range(len(sends) - 1))
+    if not sends or not contiguous or sends[0][0] > lo or n < 0:
+        return None
+    datas = [o for o in res['obs'] if o[0] != 'none']
+    end = sends[-1][0] + sends[-1][1]
+    want = [_val(case, i) for i in range(lo, lo + n)] if lo + n <= end else None
+    if want is None:
+        return None if not datas else f'capture delivered {datas} before its last sample arrived'
+    if datas != [['data', want]]:
+        return f'stand-alone capture of [{lo},{lo + n}) delivered {datas}, expected once {want}'
+    return None
+
+
 def oracle(case, res):
+    if case.get('t') == 'cap':
+        return _oracle_capture(case, res)
     if res['notes']:
         return '; '.join(res['notes'])
     pre_ok, why, reqs, ends = _analyse(case, res)
@@ -269,17 +464,14 @@ def oracle(case, res):
         return None      # outside the property's preconditions: compared with the model only
     stream = [_val(case, i) for i in range(ends[-1] if ends else 0)]
     annot = case['kind'][0] == 'P'
-    byrid = {r['rid']: r for r in reqs}
+    _, _, keyids = _effective(case, 'prop')
+    bykey = {r['key']: r for r in reqs}
     delivered_rows, count = [], {}
     fire_at = []
-    n_deliv_upto = []
-    tot = 0
     for f, o in enumerate(res['obs']):
         if o[0] == 'E':
             return f'send #{f} raised ({o[1]}) on a schedule that satisfies the preconditions'
         rows, ann, cb = o[1], o[2], o[3]
-        tot += len(rows)
-        n_deliv_upto.append(tot)
         if cb:
             fire_at.append(f)
         if annot and rows and ann is None:
@@ -287,20 +479,21 @@ def oracle(case, res):
         for j, row in enumerate(rows):
             delivered_rows.append(row)
             if ann is not None:
-                rid, missed = ann[1][j]
-                if missed or rid not in byrid:
-                    return f'send #{f}: delivered an epoch flagged as missed / without its request metadata ({res["mds"][f][j]})'
-                r = byrid[rid]
-                count[rid] = count.get(rid, 0) + 1
+                md = res['mds'][f][j]
+                kid = keyids.get((md.get('t0'), md.get('key'))) if 't0' in md else None
+                if kid is None or kid not in bykey:
+                    return f'send #{f}: delivered an epoch flagged as missed / not carrying the t0 and key of any request ({md})'
+                r = bykey[kid]
+                count[kid] = count.get(kid, 0) + 1
                 want = stream[r['lo']:r['lo'] + r['n']]
                 if row != want:
-                    return (f'send #{f}: epoch with metadata of request {rid} (lo={r["lo"]}, n={r["n"]}) holds {row}, '
+                    return (f'send #{f}: epoch with t0/key of request {kid} (lo={r["lo"]}, n={r["n"]}) holds {row}, '
                             f'expected stream[{r["lo"]}:{r["lo"] + r["n"]}] = {want}')
-                msg = _check_md(case, res, r, res['mds'][f][j])
+                msg = _check_md(case, res, r, md)
                 if msg:
                     return f'send #{f}: {msg}'
                 if j == 0 and ann[0] != r['lo']:
-                    return f'send #{f}: s0 of the delivered block is {ann[0]}, first epoch starts at {r["lo"]}'
+                    return f'send #{f}: s0 of the delivered block is {ann[0]} past the stream start, first epoch starts at {r["lo"]}'
     # exactly once / never
     want_rows = []
     for r in reqs:
@@ -308,14 +501,16 @@ def oracle(case, res):
         if exp:
             want_rows.append(stream[r['lo']:r['lo'] + r['n']])
         if annot:
-            got = count.get(r['rid'], 0)
+            got = count.get(r['key'], 0)
             if got != exp:
-                return (f'request {r["rid"]} (lo={r["lo"]}, n={r["n"]}, visible at send #{r["a"]}, complete at send #{r["d"]}, '
+                return (f'request {r["key"]} (lo={r["lo"]}, n={r["n"]}, visible at send #{r["a"]}, complete at send #{r["d"]}, '
                         f'first removal at send #{r["first_rem"]}) was delivered {got} times, expected {exp}')
     if sorted(delivered_rows) != sorted(want_rows):
         return f'delivered epochs {delivered_rows}, expected exactly (any order) {want_rows}'
+    if not case.get('cb', True):
+        return None
     # all-done callback: at most once; exactly at the first send where the source is complete and nothing is pending
-    B, eff = _effective(case)
+    _, eff, _ = _effective(case, 'prop')
     first = None
     for f in range(len(res['obs'])):
         arrived = [r for r in reqs if r['a'] <= f]
@@ -333,29 +528,36 @@ def oracle(case, res):
 
 
 def _check_md(case, res, r, md):
-    fs = case['fs']
-    q = None
-    i = 0
+    fs = _fs(case)
+    q, i, idx = None, 0, None
     for f in case['feeds']:
         for x in f['reqs']:
-            if i == r['rid']:
-                q = x
+            if _effective_key_match(case, x, r):
+                q, idx = x, i
             i += 1
-    want = dict(CHUNK_MD)
-    want.update({'rid': r['rid'], 't0': q[0] / fs, 'prestim_time': res['pre'], 'poststim_time': res['post']})
+    opts = q[3] if len(q) > 3 else {}
+    want = dict(CHUNK_MD) if case.get('chunk_md', True) else {}
+    want.update({'t0': _t0(case, q), 'prestim_time': res['pre'], 'poststim_time': res['post']})
+    if not opts.get('nomd'):
+        want['rid'] = idx
     if q[1] is not None:
-        want['key'] = q[1]
-    if case['size'] is None:
+        want['key'] = _key(q[1])
+    if _has_dur(case, q):
         want['duration'] = q[2] / fs
-        want['epoch_size'] = q[2] / fs
-    else:
-        want['epoch_size'] = case['size'] / fs
+    want['epoch_size'] = (q[2] / fs) if case['size'] is None else _epoch_size(case)
     if md != want:
         return f'metadata {md} != metadata of its request {want}'
     return None
 
 
+def _effective_key_match(case, q, r):
+    _, _, keyids = _effective(case, 'prop')
+    return keyids.get((_t0(case, q), _key(q[1]))) == r['key']
+
+
 def nontrivial(case, res):
+    if case.get('t') == 'cap':
+        return len(case['sends']) > 1
     pre_ok, why, reqs, ends = _analyse(case, res)
     starts = [0] + ends[:-1]
     for r in reqs:
@@ -369,6 +571,10 @@ def nontrivial(case, res):
 
 
 def key(case, res):
+    if case.get('t') == 'cap':
+        return None
+    if case.get('size') == 0:
+        return ZERO_KEY
     try:
         pre_ok, why, reqs, ends = _analyse(case, res)
     except Exception:
@@ -380,8 +586,13 @@ def distribution(cases, results):
     d = {'kind': {}, 'fs': {}, 'precondition': {}, 'errors': {}, 'requests': 0, 'removals': 0, 'lookback_captures': 0,
          'boundary_spanning': 0, 'missed_epochs': 0, 'delivered_epochs': 0, 'cb_fired': 0}
     for c, r in zip(cases, results):
-        if not isinstance(r, dict) or 'obs' not in r:
+        if not isinstance(r, dict) or 'obs' not in r or c.get('t') == 'cap':
+            d['capture_standalone'] = d.get('capture_standalone', 0) + int(c.get('t') == 'cap')
             continue
+        for opt in ('fstype', 'dtype', 'nch', 's0off', 'chlabels', 'ro', 'cb', 'rq', 'bdef', 'predef', 'sizetype', 'withdur'):
+            if opt in c:
+                d.setdefault('options', {}).setdefault(f'{opt}={c[opt]}', 0)
+                d['options'][f'{opt}={c[opt]}'] += 1
         d['kind'][c['kind']] = d['kind'].get(c['kind'], 0) + 1
         d['fs'][str(c['fs'])] = d['fs'].get(str(c['fs']), 0) + 1
         pre_ok, why, reqs, ends = _analyse(c, r)
@@ -404,11 +615,13 @@ def distribution(cases, results):
 
 
 # --------------------------------------------------------------------------------------------
-def _case(kind, fs, B, feeds, size=None, pre=('zero', 0), post=('zero', 0), sc=False, vals='idx'):
-    if size == 0:
-        size = None      # epoch_size=0 is falsy in the code: the per-request `duration` (third entry) is used
-    return {'kind': kind, 'fs': fs, 'B': B, 'size': size, 'pre': list(pre), 'post': list(post), 'sc': sc,
-            'vals': vals, 'feeds': feeds}
+def _case(kind, fs, B, feeds, size=None, pre=('zero', 0), post=('zero', 0), sc=False, vals='idx', zero_size=False, **opts):
+    if size == 0 and not zero_size:
+        size = None      # zero-length epochs through per-request `duration` (third entry); epoch_size=0 itself: see ZERO_KEY
+    c = {'kind': kind, 'fs': fs, 'B': B, 'size': size, 'pre': list(pre), 'post': list(post), 'sc': sc,
+         'vals': vals, 'feeds': feeds}
+    c.update(opts)
+    return c
 
 
 def _feeds(chunks, reqs_at=None, rems_at=None, cpl=None):
@@ -661,8 +874,99 @@ def _source_complete(tier):
                 yield _case('P1', 1000.0, 4, _feeds(chunks, reqs, {a: [[r0[0], r0[1]]]}, cpl), size=3, sc=True)
 
 
+def _audit(tier, rng):
+    """API-surface sweep: every keyword of extract_epochs with default / non-default / unusual-but-legal kinds, info
+    dicts with and without key / metadata / duration, input dtypes, channel counts and labels, stream offsets,
+    read-only input, caller-side mutation (always on in impl), look-back given off-grid, epoch_size=0."""
+    chunks = [3, 4, 1, 4, 3, 5]
+    base_reqs = {0: [[2, 'a', 5]], 2: [[5, 'b', 5]], 3: [[9, 'c', 5]]}
+    base_rems = {4: [[9, 'c']]}
+
+    def sched(reqs=None, rems=None, cpl=None, ch=None):
+        return _feeds(ch or chunks, base_reqs if reqs is None else reqs, base_rems if rems is None else rems, cpl)
+    i = 0
+    variants = [
+        dict(fstype='int'), dict(fstype='np'), dict(dtype='int16'), dict(dtype='int32'), dict(dtype='float32'),
+        dict(nch=1), dict(nch=3), dict(nch=3, chlabels='mixed'), dict(chlabels='none'), dict(chlabels='mixed'),
+        dict(s0off=-7), dict(s0off=100), dict(chunk_md=False), dict(ro=True), dict(cb=False),
+        dict(dtype='int16', ro=True, fstype='np', nch=3), dict(withdur=True), dict(sizetype='np'),
+    ]
+    for v in variants:
+        for kind in KINDS:
+            for sc in (False, True):
+                cpl = [False, False, True, True, True, True] if sc else None
+                yield _case(kind, 1000.0, 4, sched(cpl=cpl), size=5, sc=sc, **v)
+    # defaults left to the callee: no buffer_size, no removed_queue, no prestim/poststim/source_complete
+    nolook = {0: [[2, 'a', 5]], 2: [[8, 'b', 5]], 3: [[9, 'c', 5]]}
+    for kind in KINDS:
+        yield _case(kind, 1000.0, 0, sched(nolook, {}), size=5, bdef=True, rq=False, predef=True)
+        yield _case(kind, 1000.0, 0, sched(nolook, {}), size=5, bdef=True, rq=False, predef=True, cb=False)
+        yield _case(kind, 1000.0, 0, sched(nolook), size=5, bdef=True)
+        yield _case(kind, 1000.0, 4, sched(rems={}), size=5, rq=False)
+    # request dicts: no metadata, keys of unusual kinds (falsy, tuple, huge), int / NumPy t0, duration present but unused
+    keysets = [[0, '', False], [['t', 1], 12345678901234567890, 0.0], [None, 'k', ['a', ['b', 2]]]]
+    for ks in keysets:
+        for kind in KINDS:
+            reqs = {0: [[2, ks[0], 5]], 2: [[5, ks[1], 5]], 3: [[9, ks[2], 5]]}
+            yield _case(kind, 1000.0, 4, sched(reqs, {4: [[9, ks[2]]], 1: [[2, ks[0]]]}), size=5)
+            yield _case(kind, 1000.0, 4, sched(reqs, {4: [[9, ks[2]]]}), size=None)
+    for kind in KINDS:
+        reqs = {0: [[0, 'a', 5, {'t0type': 'int'}], [2, 'n', 5, {'nomd': True}]], 2: [[5, 'b', 5, {'t0type': 'np', 'nomd': True}]],
+                3: [[9, None, 5, {'nomd': True}]]}
+        yield _case(kind, 1000.0, 4, sched(reqs, {}), size=5)
+        yield _case(kind, 1000.0, 4, sched(reqs, {4: [[9, None]]}), size=None, fstype='np')
+        yield _case(kind, 1000.0, 4, sched({0: [[2, 'a', 3]], 2: [[5, 'b', 7]], 3: [[9, 'c', 1]]}, {}), size=5, withdur=True)
+        # same t0, keys 0 and False: one dictionary key for Python, hence a duplicate
+        yield _case(kind, 1000.0, 4, sched({0: [[2, 0, 9], [2, False, 9]]}, {}), size=9)
+        # a request far in the future stays pending for ever: no callback
+        yield _case(kind, 1000.0, 4, sched({0: [[2, 'a', 5]], 1: [[10 ** 9, 10 ** 30, 5]]}, {}), size=5)
+        # negative prestim (epoch starts after t0), prestim + poststim cancelling the epoch to zero length
+        yield _case(kind, 1000.0, 4, sched(), size=5, pre=('grid', -2))
+        yield _case(kind, 1000.0, 4, sched(), size=5, pre=('grid', -2), post=('grid', -3), zero_size=False)
+        yield _case(kind, 1000.0, 4, sched(), size=5, pre=('frac', -2, 0.3), post=('frac', 1, 0.4))
+    # other rates, incl. fs = 1 given as int
+    for fs, ft in [(1.0, 'int'), (1.0, 'float'), (44100.0, 'float'), (48000.0, 'int'), (195312.5, 'np')]:
+        for kind in ('N1', 'P2'):
+            yield _case(kind, fs, 4, sched(), size=5, fstype=ft)
+            yield _case(kind, fs, 4, sched(), size=5, fstype=ft, pre=('off', 1), post=('frac', 0, 0.6))
+    # look-back given off the sample grid: round(buffer_size*fs); request exactly at / one before the look-back edge
+    for Bk in (3.6, 4.4, 3.4, 4.6, 4, 3):
+        for lo in (0, 1, 3, 4, 5):
+            for a in (2, 3):
+                i += 1
+                yield _case(KINDS[i % 4], 1000.0, Bk, _feeds([4, 4, 4, 4, 4], {a: [[lo, None, 6]]}), size=6)
+    # epoch_size = 0 (a float, not None): the window is prestim + poststim only            [ZERO_KEY]
+    for st in ('float', 'int', 'np'):
+        for kind in ('N1', 'P2'):
+            for wd in (False, True):
+                reqs = {0: [[4, 'a', 4 if wd else None]], 2: [[9, 'b', 4 if wd else None]]}
+                yield _case(kind, 1000.0, 4, sched(reqs, {}), size=0, zero_size=True, sizetype=st, withdur=wd,
+                            pre=('grid', 2), post=('grid', 1))
+                yield _case(kind, 1000.0, 4, sched(reqs, {}), size=0, zero_size=True, sizetype=st, withdur=wd)
+
+
+def _capture(tier):
+    """capture_epoch driven stand-alone with (slb, data) tuples"""
+    splits = [[[0, 4], [4, 4], [8, 4]], [[0, 12]], [[2, 3], [5, 1], [6, 0], [6, 6]], [[0, 1], [1, 1], [2, 10]],
+              [[3, 4], [7, 5]], [[0, 4], [6, 6]], [[0, 6], [4, 8]], [[5, 0], [5, 7]]]
+    i = 0
+    for sp in splits:
+        contiguous = all(sp[j][0] + sp[j][1] == sp[j + 1][0] for j in range(len(sp) - 1))
+        for lo in range(0, 10):
+            for n in (0, 1, 3, 5):
+                i += 1
+                kind = 'P1' if (contiguous and i % 2) else 'N1'
+                opts = [{}, {'nomd': True}, {'s0float': True}, {'nnp': True}, {'fsnone': True}, {'dtype': 'int16'},
+                        {'nomd': True, 'fsnone': True, 'dtype': 'int32'}][i % 7]
+                c = {'t': 'cap', 'kind': kind, 'lo': lo, 'n': n, 'sends': sp}
+                c.update(opts)
+                yield c
+
+
 def cases(tier, rng):
     yield from _fixed()
+    yield from _audit(tier, rng)
+    yield from _capture(tier)
     yield from _source_complete(tier)
     yield from _single(tier)
     yield from _pairs(tier, rng)
@@ -673,4 +977,6 @@ def cases(tier, rng):
 # replayed on every run while the finding is listed in known_findings.txt
 KNOWN_WITNESSES = {
     KNOWN_KEY: _case('N1', 1000.0, 0, _feeds([10], {0: [[1, None, 3], [2, None, 4]]})),
+    ZERO_KEY: _case('N1', 1000.0, 0, _feeds([10], {0: [[5, None, 4]]}), size=0, zero_size=True, withdur=True,
+                    pre=('grid', 2), post=('grid', 1)),
 }
